@@ -152,6 +152,7 @@ fn case_json(case: &Case, font: &[u8]) -> J {
         ("gdef_classes", J::s(case.uni.class.iter().map(|c| char::from(b'0' + *c)).collect::<String>())),
         ("mark_attach", J::s(case.uni.mac.iter().map(|c| char::from(b'0' + *c)).collect::<String>())),
         ("has_gdef", J::Bool(case.uni.has_gdef)),
+        ("has_glyph_classdef", J::Bool(case.uni.has_classdef)),
         ("features", J::s(case.gpos.as_ref().map(|l| format!("{:?}", l.features.iter().map(|f| (tag_s(f.0), f.1.clone())).collect::<Vec<_>>())).unwrap_or_default())),
         ("lookups", J::s(case.gpos.as_ref().map(|l| format!("{:?}", l.lookups)).unwrap_or_default().chars().take(6000).collect::<String>())),
         ("kern", J::s(format!("{:?}", case.kern).chars().take(1500).collect::<String>())),
